@@ -3,8 +3,8 @@ import HioModel.Timer.Lemmas
 # C08 — timers measure elapsed tyme exactly and restart losslessly
 
 Property theorems only.  Model: `HioModel/Timer/Model.lean` (`Tymer`, `tstep`, `trun`; `Mono`, `mstep`, `mrun`);
-reference and spec definitions: `HioModel/Timer/Spec.lean`.  All theorems are over `Int` time values, for every op list /
-every tymist behaviour / every clock (`Clock σ` is an arbitrary state machine) / every reading sequence.
+reference and spec definitions: `HioModel/Timer/Spec.lean`.  All theorems are over `τ` time values, for every op list /
+every tymist behaviour / every clock (`Clock τ σ` is an arbitrary state machine) / every reading sequence.
 
 Two defects in `MonoTimer` were repaired in the tree (branch fix/timer: 2e63a16 `start()` left `._last` stale, 6fc7548
 `remaining` used the pre-shift stop); the model is of the repaired code, so `mono_measures_exactly` is unconditional.
@@ -13,25 +13,27 @@ through its assignments — the model stops the trace there (`none`) and so does
 -/
 namespace Hio.Timer
 
+variable {τ : Type} [CommRing τ] [LinearOrder τ] [IsStrictOrderedRing τ]
+
 /-- C08 (virtual timer): for every pair of tymists, every constructor call and EVERY sequence of tyme assignments (forward
 or rewinds), ticks, starts, restarts and re-windings, what the Tymer reports after each step — returned start, duration,
 elapsed, remaining, expired, or `TypeError` while not wound — is exactly what the reference timer of the property reports:
 `elapsed = now - start`, `remaining = start + duration - now`, `expired ⇔ now ≥ start + duration`, where `start` is the
 given / current / previous-stop value of the last `start`/`restart` and the duration is kept unless given. -/
-theorem tymer_reports_exactly (w : TWorld) (wound : Option Nat) (dur start : Option Int) (ops : List TOp) :
-    tsnap w (Tymer.new w wound dur start) none = (TRef.new w wound dur start).report w none ∧
-    trun w (Tymer.new w wound dur start) ops = rrun w (TRef.new w wound dur start) ops :=
-  ⟨tsnap_eq_report w _ _ (TSim.new w wound dur start) none, trun_eq_rrun ops w _ _ (TSim.new w wound dur start)⟩
+theorem tymer_reports_exactly (ddur : τ) (w : TWorld τ) (wound : Option Nat) (dur start : Option τ) (ops : List (TOp τ)) :
+    tsnap w (Tymer.new ddur w wound dur start) none = (TRef.new ddur w wound dur start).report w none ∧
+    trun w (Tymer.new ddur w wound dur start) ops = rrun w (TRef.new ddur w wound dur start) ops :=
+  ⟨tsnap_eq_report w _ _ (TSim.new ddur w wound dur start) none, trun_eq_rrun ops w _ _ (TSim.new ddur w wound dur start)⟩
 
 /-- the same from any timer state, stated on the three reports directly -/
-theorem tymer_elapsed_remaining_expired (w : TWorld) (t : Tymer) (i : Nat) (h : t.wound = some i) :
+theorem tymer_elapsed_remaining_expired (w : TWorld τ) (t : Tymer τ) (i : Nat) (h : t.wound = some i) :
     t.elapsed w = .ok (w.tyme i - t.start) ∧ t.remaining w = .ok (t.stop - w.tyme i) ∧
       t.expired w = .ok (decide (w.tyme i ≥ t.stop)) := by
   simp [Tymer.elapsed, Tymer.remaining, Tymer.expired, Tymer.now, h]
 
 /-- C08: restart never raises, returns the previous stop, begins the next period there, and keeps the duration unless a
 new one is given -/
-theorem tymer_restart_at_previous_stop (w : TWorld) (t : Tymer) (d : Option Int) :
+theorem tymer_restart_at_previous_stop (w : TWorld τ) (t : Tymer τ) (d : Option τ) :
     ∃ t', t.restartOp w d = .ok (t', t.stop) ∧ t'.start = t.stop ∧ t'.stop = t.stop + durOr d t.duration ∧
       t'.wound = t.wound :=
   ⟨_, rfl, rfl, rfl, rfl⟩
@@ -39,47 +41,47 @@ theorem tymer_restart_at_previous_stop (w : TWorld) (t : Tymer) (d : Option Int)
 /-- C08 lossless: any number of plain restarts interleaved with ARBITRARY tyme changes — however late each restart
 happens — leaves the period boundaries on the original grid: after `k` restarts the period is
 `[start₀ + k·duration, start₀ + (k+1)·duration)`. -/
-theorem tymer_restarts_lossless (w : TWorld) (t : Tymer) (ops : List TOp) (h : ∀ op ∈ ops, op.tymeOrRestart = true) :
+theorem tymer_restarts_lossless (w : TWorld τ) (t : Tymer τ) (ops : List (TOp τ)) (h : ∀ op ∈ ops, op.tymeOrRestart = true) :
     ∃ w' t', texec w t ops = some (w', t') ∧
-      t'.start = t.start + (restartsIn ops : Int) * t.duration ∧
-      t'.stop = t.start + ((restartsIn ops : Int) + 1) * t.duration := by
+      t'.start = t.start + (restartsIn ops : τ) * t.duration ∧
+      t'.stop = t.start + ((restartsIn ops : τ) + 1) * t.duration := by
   obtain ⟨w', t', h1, _, h3, h4⟩ := texec_restarts t.duration ops w t h rfl
   refine ⟨w', t', h1, h3, ?_⟩
-  rw [h4, Int.add_mul]; simp only [Tymer.duration]; omega
+  rw [h4]; simp only [Tymer.duration]; ring
 
-example : (∀ op ∈ [TOp.setTyme 0 17, .restart none, .tick 0, .setTyme 0 3, .restart none], op.tymeOrRestart = true) := by decide
+example : (∀ op ∈ [(TOp.setTyme 0 17 : TOp Int), .restart none, .tick 0, .setTyme 0 3, .restart none], op.tymeOrRestart = true) := by decide
 
 /-- C08 (MonoTimer): between two start/restart calls the reported `elapsed` values never decrease — for every timer state
 (retro or not, however it was started), every clock, every reading sequence (stalls, backward steps anywhere) -/
-theorem mono_elapsed_never_decreases {σ} (clk : Clock σ) (m : Mono) (c : σ) (ops : List MOp)
+theorem mono_elapsed_never_decreases {σ} (clk : Clock τ σ) (m : Mono τ) (c : σ) (ops : List (MOp τ))
     (h : ∀ op ∈ ops, op.isObs = true) :
     List.Pairwise (· ≤ ·) (elapsedVals ops (mrun clk m c ops)) :=
   (mrun_elapsed_sorted clk ops m c h).1
 
 /-- C08 (MonoTimer): between two start/restart calls `expired` never reverts from True to False -/
-theorem mono_expired_never_reverts {σ} (clk : Clock σ) (m : Mono) (c : σ) (ops : List MOp)
+theorem mono_expired_never_reverts {σ} (clk : Clock τ σ) (m : Mono τ) (c : σ) (ops : List (MOp τ))
     (h : ∀ op ∈ ops, op.isObs = true) :
     List.Pairwise (fun a b => a = true → b = true) (expiredVals ops (mrun clk m c ops)) :=
   (mrun_expired_monotone clk ops m c h).1
 
-example : (∀ op ∈ [MOp.elapsed, .expired, .remaining, .latest, .duration, .elapsed], op.isObs = true) := by decide
+example : (∀ op ∈ [(MOp.elapsed : MOp Int), .expired, .remaining, .latest, .duration, .elapsed], op.isObs = true) := by decide
 
 /-- `start()` at the clock reading `r0` forgets everything the timer saw before (the repaired defect: `._last` used to
 survive, so a clock step before `start()` was charged to the new period) -/
-theorem mono_start_forgets_the_past (m : Mono) (d r0 : Int) :
+theorem mono_start_forgets_the_past (m : Mono τ) (d r0 : τ) :
     m.startNow (some d) r0 = { start := r0, stop := r0 + d, last := r0, retro := m.retro } := rfl
 
 /-- C08 (MonoTimer measures exactly, restarts losslessly): a retro timer started at reading `r0` with duration `d`, then
 shown ANY readings and restarted any number of times in any order, never raises, and at the next reading `r` reports
 `elapsed` = the real elapsed time since `r0` (sum of the non-negative increments) minus one `d` per restart,
 `remaining` = `(k+1)·d` minus that real elapsed time, `expired` ⇔ real elapsed time ≥ `(k+1)·d`. -/
-theorem mono_measures_exactly (m : Mono) (hm : m.retro = true) (d r0 : Int) (es : List MEv) (r : Int) :
+theorem mono_measures_exactly (m : Mono τ) (hm : m.retro = true) (d r0 : τ) (es : List (MEv τ)) (r : τ) :
     ∃ m1, (m.startNow (some d) r0).feed es = .ok m1 ∧
-      (∃ m2, m1.elapsed r = .ok (realElapsed r0 (readsOf es ++ [r]) - (restartsOf es : Int) * d, m2)) ∧
-      (∃ m2, m1.remaining r = .ok (((restartsOf es : Int) + 1) * d - realElapsed r0 (readsOf es ++ [r]), m2)) ∧
-      (∃ m2, m1.expired r = .ok (decide (((restartsOf es : Int) + 1) * d ≤ realElapsed r0 (readsOf es ++ [r])), m2)) := by
+      (∃ m2, m1.elapsed r = .ok (realElapsed r0 (readsOf es ++ [r]) - (restartsOf es : τ) * d, m2)) ∧
+      (∃ m2, m1.remaining r = .ok (((restartsOf es : τ) + 1) * d - realElapsed r0 (readsOf es ++ [r]), m2)) ∧
+      (∃ m2, m1.expired r = .ok (decide (((restartsOf es : τ) + 1) * d ≤ realElapsed r0 (readsOf es ++ [r])), m2)) := by
   have h0 : (m.startNow (some d) r0).stop - (m.startNow (some d) r0).start = d := by
-    simp [Mono.startNow, Mono.startAt, durOr]; omega
+    simp [Mono.startNow, Mono.startAt, durOr]
   obtain ⟨m1, h1, h2, h3, h4, h5⟩ := feed_exact d es (m.startNow (some d) r0) hm h0
   have hl := feed_last es _ m1 h1
   have e0 : (m.startNow (some d) r0).last = r0 := rfl
@@ -89,22 +91,76 @@ theorem mono_measures_exactly (m : Mono) (hm : m.retro = true) (d r0 : Int) (es 
   rw [e1] at h4
   rw [e2] at h5
   have hsn := realElapsed_snoc (readsOf es) r0 r
-  rw [Int.add_mul]
+  rw [add_mul, one_mul]
   refine ⟨m1, h1, ?_, ?_, ?_⟩
   · obtain ⟨m2, he, hs⟩ := m1.elapsed_retro r h2
     refine ⟨m2, ?_⟩
     rw [he]; congr 2
-    have := hs.ela; omega
+    have := hs.ela; oarith
   · obtain ⟨m2, he, hs⟩ := m1.remaining_retro r h2
     refine ⟨m2, ?_⟩
     rw [he]; congr 2
-    have := hs.rem; omega
+    have := hs.rem; oarith
   · obtain ⟨m2, he, hs⟩ := m1.expired_retro r h2
     refine ⟨m2, ?_⟩
     rw [he]; congr 2
     have := hs.rem
     apply decide_eq_decide.2
-    constructor <;> intro _ <;> omega
+    constructor <;> intro _ <;> oarith
+
+/-! ### `Timer` / `AsyncTimer` (plain timers; `Doist.ado` paces with an `AsyncTimer`)
+
+Extension beyond C08's text (which names the virtual timer and `MonoTimer`): the plain timers have no retrograde
+compensation, so monotonicity holds exactly when their clock does not go backwards — which the asyncio event-loop clock
+guarantees by contract and `time.time()` does not. -/
+
+/-- on readings that never go backwards, `elapsed` never decreases, `remaining` never increases, `expired` never reverts -/
+theorem ptimer_monotone_on_monotone_clock (a : PTimer τ) (rs : List τ) (h : rs.Pairwise (· ≤ ·)) :
+    (rs.map a.elapsed).Pairwise (· ≤ ·) ∧ (rs.map a.remaining).Pairwise (· ≥ ·) ∧
+      (rs.map a.expired).Pairwise (fun x y => x = true → y = true) := by
+  refine ⟨List.Pairwise.map _ ?_ h, List.Pairwise.map _ ?_ h, List.Pairwise.map _ ?_ h⟩
+  · intro r r' hr; simp only [PTimer.elapsed]; linarith
+  · intro r r' hr; simp only [PTimer.remaining]; linarith
+  · intro r r' hr; simp only [PTimer.expired, decide_eq_true_eq]; intro h1; exact le_trans h1 hr
+
+/-- …and not otherwise: after a backward clock step a plain timer's elapsed goes down and expired reverts (test on literals) -/
+example : (⟨0, 4⟩ : PTimer Int).elapsed 5 = 5 ∧ (⟨0, 4⟩ : PTimer Int).elapsed 3 = 3 ∧
+    (⟨0, 4⟩ : PTimer Int).expired 5 = true ∧ (⟨0, 4⟩ : PTimer Int).expired 3 = false := by decide
+
+/-- restart begins at the previous stop and keeps the duration unless one is given -/
+theorem ptimer_restart_at_previous_stop (a : PTimer τ) (d : Option τ) :
+    (a.restart d).start = a.stop ∧ (a.restart d).stop = a.stop + durOr d a.duration := ⟨rfl, rfl⟩
+
+/-- `k` plain restarts, however late: the period is `[start₀ + k·duration, start₀ + (k+1)·duration)` -/
+theorem ptimer_restarts_lossless (a : PTimer τ) (k : Nat) :
+    (Nat.iterate (fun b : PTimer τ => b.restart none) k a).start = a.start + (k : τ) * a.duration ∧
+    (Nat.iterate (fun b : PTimer τ => b.restart none) k a).stop = a.stop + (k : τ) * a.duration := by
+  induction k generalizing a with
+  | zero => simp
+  | succ k ih =>
+    have hd : (a.restart none).duration = a.duration := by
+      simp only [PTimer.restart, PTimer.startAt, PTimer.duration, durOr]; ring
+    rw [Function.iterate_succ_apply, (ih (a.restart none)).1, (ih (a.restart none)).2, hd]
+    simp only [PTimer.restart, PTimer.startAt, PTimer.duration, durOr]
+    push_cast
+    constructor <;> ring
+
+/-! ### at the concrete time types `Int` (the driver's) and `Rat` -/
+theorem tymer_reports_exactly_rat (ddur : Rat) (w : TWorld Rat) (wound : Option Nat) (dur start : Option Rat) (ops : List (TOp Rat)) :
+    trun w (Tymer.new ddur w wound dur start) ops = rrun w (TRef.new ddur w wound dur start) ops :=
+  (tymer_reports_exactly ddur w wound dur start ops).2
+
+theorem tymer_reports_exactly_int (ddur : Int) (w : TWorld Int) (wound : Option Nat) (dur start : Option Int) (ops : List (TOp Int)) :
+    trun w (Tymer.new ddur w wound dur start) ops = rrun w (TRef.new ddur w wound dur start) ops :=
+  (tymer_reports_exactly ddur w wound dur start ops).2
+
+theorem mono_elapsed_never_decreases_rat {σ} (clk : Clock Rat σ) (m : Mono Rat) (c : σ) (ops : List (MOp Rat))
+    (h : ∀ op ∈ ops, op.isObs = true) : List.Pairwise (· ≤ ·) (elapsedVals ops (mrun clk m c ops)) :=
+  mono_elapsed_never_decreases clk m c ops h
+
+theorem mono_elapsed_never_decreases_int {σ} (clk : Clock Int σ) (m : Mono Int) (c : σ) (ops : List (MOp Int))
+    (h : ∀ op ∈ ops, op.isObs = true) : List.Pairwise (· ≤ ·) (elapsedVals ops (mrun clk m c ops)) :=
+  mono_elapsed_never_decreases clk m c ops h
 
 /-! Non-vacuity (tests, not claims): a run of the scenario function the correspondence drives, on the scripted clock, with
 a backward step inside the constructor, a stall and another backward step. -/
